@@ -4,8 +4,9 @@
   Part 1 (this file): the naive decoder, generic in the code.
   Part 2 (Props/C14/Mwpm.lean): the MWPM decoders — split of the two plaquette types and the
   reduction of "corrects every error with |X|,|Z| ≤ t" to C13 / C15 / C08 facts.
-  Part 3 (Props/C14/Chain.lean): the chain-to-matching (T-join) lemma, generic and for the torus, and
-  `toric_mwpm_corrects` for all sizes without the `ChainBound` hypothesis.
+  Part 3 (Props/C14/Chain.lean): the chain-to-matching (T-join) lemma — generic, with a boundary, for
+  the torus and for the planar code — and `toric_mwpm_corrects`, `planar_mwpm_corrects` for all sizes
+  without the `ChainBound` hypothesis.
 
   Property theorems only; helper lemmas live in Lemmas/NaiveDecode.lean, Lemmas/MwpmSplit.lean.
 
